@@ -587,6 +587,20 @@ Definition ref_fields (block : list N) : option (list (list N * list N)) :=
   | _ => None
   end.
 
+(* h2 may refuse a complete, well-framed header block for reasons of *content*: fields it considers
+   malformed, an undecodable block, a header list beyond its limits.  The oracle accepts an error
+   event for such a block only when the reference decoding of the block shows such a reason. *)
+Definition header_error_plausible (max_hls : N) (w : wire_frame) : bool :=
+  let block := match w with
+               | WHeaders _ _ _ _ b => b
+               | WPushPromise _ _ _ b => b
+               | _ => []
+               end in
+  match lit_loop (S (length block)) big_limit lit_empty 0 false block with
+  | (HpOk, _, st) => max_hls <=? lt_field_size st
+  | _ => true
+  end.
+
 (* does the delivered header frame say what the reference value says? *)
 Definition header_event_matches (w : wire_frame) (max_hls : N) (e : ievent) : bool :=
   match e with
@@ -647,7 +661,7 @@ Fixpoint oracle_walk (max max_hls : N) (cur : option open_block) (rs : list rfc_
                 if eh then
                   match is with
                   | e :: is' =>
-                      if ievent_is_error e then true
+                      if ievent_is_error e then header_error_plausible max_hls (open_close (open_extend o frag))
                       else header_event_matches (open_close (open_extend o frag)) max_hls e
                            && oracle_walk max max_hls None rs' frames' is'
                   | [] => false
@@ -683,7 +697,7 @@ Fixpoint oracle_walk (max max_hls : N) (cur : option open_block) (rs : list rfc_
               end
           | WHeaders _ _ true _ _ =>
               match is with
-              | e :: is' => if ievent_is_error e then true
+              | e :: is' => if ievent_is_error e then header_error_plausible max_hls w
                             else header_event_matches w max_hls e && oracle_walk max max_hls None rs' frames' is'
               | [] => false
               end
@@ -692,7 +706,7 @@ Fixpoint oracle_walk (max max_hls : N) (cur : option open_block) (rs : list rfc_
               then expect_error
               else
               match is with
-              | e :: is' => if ievent_is_error e then true
+              | e :: is' => if ievent_is_error e then header_error_plausible max_hls w
                             else header_event_matches w max_hls e && oracle_walk max max_hls None rs' frames' is'
               | [] => false
               end
